@@ -33,7 +33,9 @@ GEN = os.path.join(SPEC, "gen", "g01")
 # TRUE: the specification models HandleTaskExit's second emission as the code has it (named deviation ExitInfoClobber: it says
 # engineExitReason None / engineExitCode <task code> after the exit).  Set to "FALSE" once /repo is repaired
 # (out/proposed_fixes/G01_exit_info_clobbers_exit_reason.diff); the expected counterexample of ReasonNeverClobbered then goes away too.
-CLOBBER = "TRUE"
+CLOBBER = os.environ.get("G01_CLOBBER", "TRUE")
+# FALSE: restart() re-enters run() without an emission (the code as it is; see out/proposed_fixes/G01_silent_reexit_after_restart_repro.py)
+RESTART_EMITS = os.environ.get("G01_RESTART_EMITS", "FALSE")
 
 REASONS_Q = ["Success", "KnownIssue", "ResourceExhausted", "Killed", "SubmissionFailed"]
 REASONS_T = ["Success", "KnownIssue", "ResourceExhausted", "Killed", "SubmissionFailed", "Cancelled", "SystemIssue", "UnknownIssue"]
@@ -54,7 +56,7 @@ def tla_set(xs):
 def cfg(name, consts, body):
     os.makedirs(GEN, exist_ok=True)
     c = dict(Reasons=tla_set(REASONS_Q), Kinds=tla_set(KINDS), Order='"any"', Quiet="FALSE", Emit="FALSE", MaxEnv=0, MaxKill=1,
-             MaxTick=0, MaxRun=1, MaxSnaps=3, Clobber=CLOBBER)
+             MaxTick=0, MaxRun=1, MaxSnaps=3, Clobber=CLOBBER, RestartEmits=RESTART_EMITS)
     c.update(consts)
     path = os.path.join(GEN, name + ".cfg")
     with open(path, "w") as f:
@@ -86,18 +88,22 @@ def model_check(chk, tier):
     inv = "SPECIFICATION Spec\nCONSTRAINT Bound\n" + "".join("INVARIANT %s\n" % i for i in INVARIANTS) + "".join("PROPERTY %s\n" % p for p in PROPS)
     jobs = []      # (kind, name, consts, body, property expected to fail | None, coverage)
     jobs.append(("cover", "cover", dict(MaxTick=1, MaxRun=2, MaxSnaps=2, Reasons=tla_set(["ResourceExhausted"]), Kinds=tla_set(["ok"])), inv, None, True))
-    grid = [dict(MaxTick=0, MaxRun=2, MaxSnaps=2), dict(MaxTick=1, MaxRun=1, MaxSnaps=2), dict(MaxTick=0, MaxRun=1, MaxSnaps=3, MaxKill=2, Reasons=S3, Kinds=K2)]
+    grid = [dict(MaxTick=0, MaxRun=2, MaxSnaps=2), dict(MaxTick=0, MaxRun=1, MaxSnaps=3, Reasons=S3, Kinds=K2), dict(MaxTick=1, MaxRun=1, MaxSnaps=2)]
     if thorough:
         S2, K1 = tla_set(["ResourceExhausted", "Killed"]), tla_set(["ok"])
-        grid = [dict(MaxTick=0, MaxRun=2, MaxSnaps=3, Reasons=S2, Kinds=K1)] + grid       # the largest first
+        grid = [dict(MaxTick=0, MaxRun=2, MaxSnaps=3, Reasons=tla_set(["ResourceExhausted"]), Kinds=K1)] + grid       # the largest first
         grid += [dict(MaxTick=0, MaxRun=1, MaxSnaps=3, MaxKill=2), dict(MaxTick=1, MaxRun=2, MaxSnaps=2, Reasons=S3, Kinds=K2),
                  dict(MaxTick=0, MaxRun=3, MaxSnaps=2, MaxKill=2, Reasons=S2, Kinds=K1)]
+    if not thorough:
+        grid = grid[:2]
     for i, g in enumerate(grid):
-        jobs.append(("hold", "fine%d" % i, g, inv, None, False))
+        one_run = "".join("PROPERTY %s\n" % p for p in ONE_RUN_PROPS) if g.get("MaxRun") == 1 else ""
+        jobs.append(("hold", "fine%d" % i, g, inv + one_run, None, False))
     # the stream properties hold when snapshots keep their order and no clock tick slips in between (a tick reads a fresh
     # stateDictionary straight into the FIFO part and so overtakes every snapshot still in its trigger-pool hop)
     jobs.append(("hold", "fifo", dict(Order='"fifo"', MaxTick=0, MaxRun=2, MaxSnaps=3), inv + "".join("PROPERTY %s\n" % p for p in FIFO_PROPS), None, False))
-    jobs.append(("hold", "onerun", dict(MaxTick=0, MaxRun=1, MaxSnaps=2, MaxKill=2), inv + "".join("PROPERTY %s\n" % p for p in ONE_RUN_PROPS), None, False))
+    if thorough:
+        jobs.append(("hold", "onerun", dict(MaxTick=0, MaxRun=1, MaxSnaps=2, MaxKill=2), inv + "".join("PROPERTY %s\n" % p for p in ONE_RUN_PROPS), None, False))
     # liveness under fairness
     jobs.append(("hold", "live", dict(MaxTick=0, MaxRun=2 if thorough else 1, MaxSnaps=2, Reasons=S3, Kinds=K2),
                  "SPECIFICATION FairSpec\nCONSTRAINT Bound\nPROPERTY KillLeadsToDead\nPROPERTY ShutdownLeadsToCompletion\nPROPERTY DeadEventuallyKnown\n", None, False))
@@ -112,8 +118,9 @@ def model_check(chk, tier):
             ("NoResurrection", dict(Order='"any"', MaxTick=0, MaxRun=1, MaxSnaps=3), "SnapshotOvertaking/alive-after-dead"),
             ("NoResurrection", dict(Order='"fifo"', MaxTick=1, MaxRun=1, MaxSnaps=3), "ClockTickOvertakesSnapshot/alive-after-dead"),
             ("KillAlwaysHeard", dict(Order='"fifo"', MaxTick=0, MaxRun=2, MaxSnaps=2, MaxKill=2, Reasons=S3, Kinds=K2), "StaleInitCompletion/kill-lost-after-restart")):
-        if name == "ExitInfoClobber" and CLOBBER != "TRUE":
-            jobs.append(("hold", "noclobber", consts, "SPECIFICATION Spec\nCONSTRAINT Bound\nPROPERTY %s\n" % prop, None, False))
+        if prop in ("ReasonNeverClobbered", "FirstDeadCarriesReason") and CLOBBER != "TRUE":
+            # with the repaired extract_info_from_emission both emissions of HandleTaskExit carry the reason
+            jobs.append(("hold", "noclobber_" + prop, consts, "SPECIFICATION Spec\nCONSTRAINT Bound\nPROPERTY %s\n" % prop, None, False))
             continue
         jobs.append(("deviation", name, consts, "SPECIFICATION Spec\nCONSTRAINT Bound\nPROPERTY %s\n" % prop, prop, False))
 
@@ -121,7 +128,8 @@ def model_check(chk, tier):
         kind, name, consts, body, prop, cov = job
         c = cfg("%s_%s_%s" % (kind, re.sub(r"\W", "_", name), tier), consts, body)
         try:
-            return tlc.run_tlc("EngineLifecycle", c, timeout=1500, workers=4, coverage=cov, expect_violation=prop is not None)
+            # runs that stop at a counterexample use one worker: their statistics are then the same in every run
+            return tlc.run_tlc("EngineLifecycle", c, timeout=1500, workers=4 if prop is None else 1, coverage=cov, expect_violation=prop is not None)
         except MachineryError as e:
             return e
     with ThreadPoolExecutor(4) as ex:
@@ -150,24 +158,26 @@ def model_check(chk, tier):
 def emit_cases(chk, tier):
     thorough = tier == "thorough"
     out = []
-    plan = [("fifo", dict(MaxEnv=7, MaxKill=2, MaxTick=1, MaxRun=3)), ("lifo", dict(MaxEnv=7, MaxKill=1, MaxTick=1, MaxRun=2))]
+    plan = [("fifo", dict(MaxEnv=7, MaxKill=2, MaxTick=1, MaxRun=3)), ("lifo", dict(MaxEnv=6, MaxKill=1, MaxTick=1, MaxRun=2))]
     if thorough:
-        plan = [("fifo", dict(MaxEnv=9, MaxKill=2, MaxTick=2, MaxRun=3, Reasons=tla_set(REASONS_T))),
-                ("lifo", dict(MaxEnv=8, MaxKill=2, MaxTick=1, MaxRun=3))]
+        plan = [("fifo", dict(MaxEnv=9, MaxKill=2, MaxTick=1, MaxRun=3)),
+                ("fifo", dict(MaxEnv=7, MaxKill=2, MaxTick=2, MaxRun=3, Reasons=tla_set(REASONS_T))),
+                ("lifo", dict(MaxEnv=8, MaxKill=1, MaxTick=1, MaxRun=3))]
+    seen = set()
     for order, consts in plan:
         consts = dict(consts, Order='"%s"' % order, Quiet="TRUE", Emit="TRUE", MaxSnaps=9)
-        r = tlc.run_tlc("EngineLifecycle", cfg("emit_%s_%s" % (order, tier), consts, "SPECIFICATION Spec\nINVARIANT TypeOK\nINVARIANT EmitCase\n"),
+        r = tlc.run_tlc("EngineLifecycle", cfg("emit_%s_%d_%s" % (order, len(out), tier), consts, "SPECIFICATION Spec\nINVARIANT TypeOK\nINVARIANT EmitCase\n"),
                         workers=1, timeout=1500)
         must_hold(chk, r, "case emission (%s)" % order)
-        seen = set()
+        n0 = len(out)
         for c in r["cases"]:
             k = (tuple(c["hist"]), c["order"])
             if k in seen:
                 continue
             seen.add(k)
             out.append(c)
-        if len(seen) < 500:
-            raise MachineryError("TLC emitted only %d %s cases" % (len(seen), order))
+        if len(r["cases"]) < 500:
+            raise MachineryError("TLC emitted only %d %s cases" % (len(r["cases"]), order))
     return out
 
 
@@ -347,7 +357,7 @@ def validate_traces(chk, tag, runs, batch=250):
             f.write("---- MODULE EngineTraceData ----\nEXTENDS TLC\nTraces == <<\n  %s\n>>\n====\n" % ",\n  ".join(
                 "<<" + ",\n    ".join(tla_step(s) for s in tr) + ">>" for _sd, tr in chunk))
         body = ("CONSTANTS\n  Reasons = %s\n  Kinds = %s\n  Order = \"any\"\n  Quiet = FALSE\n  Emit = FALSE\n  MaxEnv = 0\n  MaxKill = 99\n  MaxTick = 99\n"
-                "  MaxRun = 99\n  MaxSnaps = 12\n  Clobber = %s\nSPECIFICATION TraceSpec\nCONSTRAINT Furthest\nPOSTCONDITION AllAccepted\nCHECK_DEADLOCK FALSE\n" % (tla_set(REASONS_T), tla_set(KINDS), CLOBBER))
+                "  MaxRun = 99\n  MaxSnaps = 12\n  Clobber = %s\n  RestartEmits = %s\nSPECIFICATION TraceSpec\nCONSTRAINT Furthest\nPOSTCONDITION AllAccepted\nCHECK_DEADLOCK FALSE\n" % (tla_set(REASONS_T), tla_set(KINDS), CLOBBER, RESTART_EMITS))
         c = os.path.join(d, "trace.cfg")
         with open(c, "w") as f:
             f.write(body)
